@@ -827,7 +827,60 @@ def composite_name_parsers(repo, module="onnx_ir.serde"):
     return out
 
 
+def composite_name_order(repo, module="onnx_ir.serde"):
+    """[(parser function, offending split call, first separator, second separator)]: the composite name is written
+    `{A}<s1>{B}<s2>{C}` (an f-string with <s1> bound to a local that is the first field of an f-string with <s2>); a parser
+    splits the whole name at <s1> first and the remainder at <s2> - splitting at <s2> first cuts an <A> that contains <s2>."""
+    m = repo.modules[module]
+    order = []  # (s1, s2)
+    for f in m.all_funcs:
+        if isinstance(f.node, ast.Lambda):
+            continue
+        if f.parent is not None:
+            continue  # nested helpers are scanned with the function that defines them (closures over the inner name)
+        inner = {}
+        for n in ast.walk(f.node):
+            if isinstance(n, ast.Assign) and isinstance(n.value, ast.JoinedStr) and isinstance(n.targets[0], ast.Name):
+                consts = [v.value for v in n.value.values if isinstance(v, ast.Constant)]
+                if len(consts) == 1 and len(n.value.values) == 3:
+                    inner[n.targets[0].id] = consts[0]
+        for n in ast.walk(f.node):
+            if isinstance(n, ast.JoinedStr) and len(n.values) == 3 and isinstance(n.values[0], ast.FormattedValue) and isinstance(n.values[0].value, ast.Name) \
+                    and n.values[0].value.id in inner and isinstance(n.values[1], ast.Constant):
+                order.append((inner[n.values[0].value.id], n.values[1].value))
+    out, examined = [], 0
+    for s1, s2 in sorted(set(order)):
+        for f in m.all_funcs:
+            if isinstance(f.node, ast.Lambda):
+                continue
+            splits = [c for c in own_nodes(f.node) if isinstance(c, ast.Call) and isinstance(c.func, ast.Attribute) and c.func.attr in ("partition", "split", "rpartition", "rsplit")
+                      and c.args and isinstance(c.args[0], ast.Constant) and c.args[0].value in (s1, s2)]
+            if not ({c.args[0].value for c in splits} >= {s1, s2}):
+                continue
+            examined += 1
+            first = next(c for c in splits if c.args[0].value == s1)
+            second = next(c for c in splits if c.args[0].value == s2)
+            # the <s1> split works on a parameter (the whole name); the <s2> split on a local bound by the <s1> split
+            whole = isinstance(first.func.value, ast.Name) and first.func.value.id in f.params
+            p1 = getattr(first, "_parent", None)
+            while p1 is not None and not isinstance(p1, (ast.Assign, ast.AnnAssign, ast.stmt)):
+                p1 = getattr(p1, "_parent", None)
+            bound = {x.id for t in getattr(p1, "targets", []) for x in ast.walk(t) if isinstance(x, ast.Name)} if isinstance(p1, ast.Assign) else set()
+            rest = isinstance(second.func.value, ast.Name) and second.func.value.id in bound
+            if not (whole and rest):
+                out.append((f, second, s1, s2))
+    return out, examined
+
+
 def rule_s9(ctx, rule: str, consequence: str):
+    bad, examined = composite_name_order(ctx.repo)
+    for f, call, s1, s2 in bad:
+        ctx.check(rule, f"S9 {f.local}: the composite name is taken apart in the order it is written ({s1!r} before {s2!r})", False, f, call,
+                  f"the name is written {{A}}{s1}{{B}}{s2}{{C}} but `{norm(call)}` splits at {s2!r} before {s1!r} was split off: a first component that contains "
+                  f"{s2!r} (a domain such as github.com/foo) is cut in two and the entry is not recognised; {consequence}",
+                  how="order of the separators in the serializer's nested f-strings vs receivers of the parser's splits", construct=f"split at {s2!r} before {s1!r}")
+    if examined:
+        ctx.ob(rule, f"S9: {examined} parser(s) split the composite name in the order it is written", not bad, nontrivial=False, how="receiver chain of the splits")
     n = 0
     for f, call, sep, ok, why in composite_name_parsers(ctx.repo):
         n += 1
